@@ -347,6 +347,78 @@ def mixed_family(rng, n_enum, n_rand, bnodes=True, big=False, pi=None, extra_pro
     return out
 
 
+def add_url_literals(T, rng, n=2):
+    """Append literals whose lexical form is exactly the identity string of a node of T (the IRI of an
+    IRI node, '_:label' of a blank node): a URL kept as a plain string must never count as a link."""
+    M, S, G = lib()
+    nodes = dedup([x for (s, p, o) in T for x in (s, o) if not M.is_literal(x)])
+    typed = dedup([s for (s, p, o) in T if p == M.RDF_TYPE])
+    subjects = dedup([s for (s, p, o) in T])
+    props = dedup([p for (s, p, o) in T if p != M.RDF_TYPE]) + [G.EX + "homepage"]
+    out = list(T)
+    for i in range(n):
+        target = rng.choice(typed if typed and rng.random() < 0.8 else nodes)
+        s = rng.choice(subjects)
+        p = props[-1] if i == 0 else rng.choice(props)
+        dt = None if rng.random() < 0.8 else DT_FOO
+        out.insert(rng.randint(0, len(out)), M.Triple(s, p, M.Lit(M.node_id(target), dt=dt)))
+    return dedup(out)
+
+
+def literal_link_hits(T):
+    """{predicate: set of node identity strings that occur as the lexical form of a literal object}."""
+    M = lib()[0]
+    ids = set(M.node_id(x) for (s, p, o) in T for x in (s, o) if not M.is_literal(x))
+    hits = {}
+    for (s, p, o) in T:
+        if M.is_literal(o) and o.lex in ids:
+            hits.setdefault(p, set()).add(o.lex)
+    return hits
+
+
+# ---- float-boundary family (C02/C12): class sizes at which (k / N) * N != k in IEEE doubles ---------
+FB_SIZES = (25, 41, 50, 100)
+FB_PREFERRED = {25: 7, 41: 23, 50: 14, 100: 55}
+FB_PROP = "http://ex.org/p"
+FB_INC = "http://ex.org/inc"
+FB_CTRL = "http://other.org/ns#q"
+
+
+def _float_boundary_pairs():
+    """[(k, N, tag)]: per N one pair whose product (k/N)*N rounds ABOVE k (a filter written as
+    n >= t*N drops the boundary case), one pair rounding BELOW k if the sizes offer one, and one
+    control pair per N whose product is exact.  Searched at import, nothing hard-wired."""
+    out, below = [], None
+    for N in FB_SIZES:
+        up = [k for k in range(1, N) if (float(k) / N) * N > k]
+        dn = [k for k in range(1, N) if (float(k) / N) * N < k]
+        ex = [k for k in range(3, N - 1) if (float(k) / N) * N == k]
+        if up:
+            out.append((FB_PREFERRED[N] if FB_PREFERRED.get(N) in up else up[0], N, "above"))
+        if dn:
+            below = (dn[-1], N, "below")
+        if ex:
+            out.append((ex[0], N, "exact"))
+    if below:
+        out.append(below)
+    return out
+
+
+FLOAT_BOUNDARY_PAIRS = _float_boundary_pairs()
+
+
+def float_boundary_graph(k, N):
+    """One class A with N IRI instances i0..i(N-1); ex:p "x" on the first k of them; o:q (integer) on
+    all; k incoming ex:inc triples from untyped IRI subjects to the LAST k instances."""
+    M, S, G = lib()
+    inst = [M.IRI(G.EX + "i%d" % i) for i in range(N)]
+    T = [M.Triple(x, M.RDF_TYPE, M.IRI(G.CLASS_A)) for x in inst]
+    T += [M.Triple(x, FB_PROP, M.Lit("x")) for x in inst[:k]]
+    T += [M.Triple(x, FB_CTRL, M.Lit("1", dt=M.XSD_INTEGER)) for x in inst]
+    T += [M.Triple(M.IRI(G.OTHER + "w%d" % i), FB_INC, x) for i, x in enumerate(inst[N - k:])]
+    return T
+
+
 # ------------------------------------------------------------------------------------------------
 # normalised output
 # ------------------------------------------------------------------------------------------------
